@@ -33,6 +33,9 @@ TRIAGE: dict[str, tuple[str, str]] = {
     "src/pest/state.py::ParserState.ok|pop|self._pos_history.pop()|IndexError": (
         SAFE, "every ok() is preceded by a checkpoint() on the same path: obligation R1 of the operator analysis, checked on every abstract path of every operator and template"),
     "src/pest/state.py::ParserState.restore|pop|self._pos_history.pop()|IndexError": (SAFE, "as ParserState.ok (R1)"),
+    "src/pest/state.py::ParserState.ok|pop|self._tag_history.pop()|IndexError": (
+        SAFE, "checkpoint() appends to _tag_history and _pos_history together, ok() / restore() pop both: as _pos_history (R1)"),
+    "src/pest/state.py::ParserState.restore|pop|self._tag_history.pop()|IndexError": (SAFE, "as ParserState.ok (R1)"),
     "src/pest/grammar/expressions/choice.py::OptimizedChoice.pattern|call|re.compile(self.build_optimized_pattern())|regex.error": (
         SAFE, "build_optimized_pattern assembles only re.escape()d literals, (?ai:...) groups, \\p{...} classes from the constant registry and a character class of escaped code points (C12 pattern-fragment rule; C07 PATTERN and C02 O12 compile every pattern it emits on the model)"),
     "src/pest/grammar/expressions/choice.py::_optimize_char_class|subscript|merged[-1][1]|IndexError": (
